@@ -4,7 +4,10 @@
    domain of the property), and the Type 2 machine that judges the encoder (Type2Core.tla, checked
    through Type2.tla/Type2.cfg restricted to the path and hint operators) satisfies its stack,
    stage, width and replay invariants.
-2. R: TLC -simulate generates fonts (1..8 glyph descriptions each) from boundary deltas that
+2. R: TLC enumerates the stack-limit sweep (Type2GlyphSweep.cfg: for every operator form the encoder
+   can emit, isolated runs whose single-operator encoding needs limit-2..limit+2 operands, with
+   first/middle/last segments of another family, with and without a width operand, 0..49 stems),
+   and TLC -simulate generates fonts (1..8 glyph descriptions each) from boundary deltas that
    make every operator form reachable (h/v zero patterns, flex-compatible pairs, runs across the
    48-operand limit, 0..96 stems, masks first / in the middle, equal / unequal / fractional
    widths).  The harness builds a cff.Font, calls (*cff.Font).Write, and extracts charstrings
@@ -197,16 +200,20 @@ class Runner:
 
 
 def _fonts(ctx, cfgname, n, label, subs=()):
+    """n fonts by simulation; n = None: enumerate the configuration (every terminal state is a font)."""
     text = open(os.path.join(vlib.SPEC_DIR, cfgname)).read()
     for a, b in subs:
         assert a in text, (cfgname, a)
         text = text.replace(a, b)
-    res = ctx.tlc("Type2GlyphMC", cfg="G.cfg", files={"G.cfg": text}, workers=1, simulate=n, depth=400,
-                  timeout=1500, label=label)
+    if n is None:
+        res = ctx.tlc("Type2GlyphMC", cfg="G.cfg", files={"G.cfg": text}, timeout=1500, label=label)
+    else:
+        res = ctx.tlc("Type2GlyphMC", cfg="G.cfg", files={"G.cfg": text}, workers=1, simulate=n, depth=400,
+                      timeout=1500, label=label)
     if res.violated:
         raise vlib.Infra("%s: GlyphGen violates %s -- the spec is wrong, not the code:\n%s"
                          % (label, res.violated, res.error_text[:1500]))
-    if len(res.cases) < n // 2:
+    if len(res.cases) < (1000 if n is None else n // 2):
         raise vlib.Infra("%s produced only %d fonts" % (label, len(res.cases)))
     return res.cases
 
@@ -238,6 +245,9 @@ def run(ctx):
 
     r = Runner(ctx)
     strata = [
+        # enumerated, not sampled: operator form x run length around the 48-operand limit x variant x
+        # stem plan x width operand present/absent (Type2GlyphSweep.cfg)
+        ("stack-limit sweep (enumerated)", "Type2GlyphSweep.cfg", (), "Type2Trace.cfg", None),
         ("integer glyphs", "Type2GlyphGen.cfg", (), "Type2Trace.cfg", ctx.pick(220, 2500)),
         ("integer glyphs with corner-to-corner jumps", "Type2GlyphGen.cfg", [("FarJumps = FALSE", "FarJumps = TRUE")],
          "Type2Trace.cfg", ctx.pick(40, 400)),
@@ -245,7 +255,7 @@ def run(ctx):
     ]
     for label, gcfg, subs, tcfg, n in strata:
         fonts = _fonts(ctx, gcfg, n, "GlyphGen: " + label, subs=subs)
-        ctx.sample({"font_" + label.split()[0]: fonts[0]})
+        ctx.sample({"font_" + label.split()[0]: fonts[len(fonts) // 2]})
         bad = r.validate(fonts, tcfg, "Type2Trace: " + label)
         r.report(fonts, bad, tcfg, label)
 
